@@ -51,38 +51,38 @@ CHECKS = {
          "DESIGN.md §4 C11"),
  "C12": ("proptest coordinate class mixture + exhaustive special-value batteries and integer+-ulp sweeps over self-describing textures (owned, sliced, nested, strided with poison surroundings) vs an exact floor-mod / clamp oracle",
          "Generated-input search over 13M (1.5G) sampler cases including NaN, infinities, +-2^31 neighbourhoods, negative integers and subnormals; exact oracle (no tolerance); no panic for repeat/clamp on any f32 pair; poison texels detect out-of-region reads.",
-         "Trusted: exact oracle in c12.rs; SamplerOnce only called in range (documented unchecked); std float backend (others in C20).",
+         "Trusted: exact oracle in c12.rs; SamplerOnce only called in range (documented unchecked). Also: owned textures with a side of 2^24..2^26 (+1, +2, +3) texels (sub-check huge; found F22), and the whole check again in the libm and mm twin builds.",
          "DESIGN.md §4 C12"),
  "C13": ("proptest round trips (owned and strided views, adversarial pixel bytes) and independent re-encoders (P6/P3, P5/P2, random whitespace/comments), structure-aware mutation of valid files + arbitrary bytes with a semantic oracle; thorough: two libFuzzer campaigns (cargo-fuzz target pnm_decode with the same oracle) and a second build without debug assertions",
          "Generated-input search: 1.44M (12M + 10M libFuzzer execs + 3M in the assertions-off build) inputs; no panic on any byte string, Ok implies len == w*h and header dimensions (checked by the harness's own header parser); bit-exact round trips.",
-         "Trusted: the harness's PNM encoders/header parser in c13.rs; zero-width images with nonzero height are asserted as 'no panic' only (Buf2 cannot represent them).",
+         "Trusted: the harness's PNM encoders/header parser in c13.rs; zero-width images with nonzero height are asserted as 'no panic' only (Buf2 cannot represent them). Views are sliced with every range spelling (a..b, a.., ..=b, Bound pairs); write_ppm writes into a Vec or a short-writing / interrupted Write.",
          "DESIGN.md §4 C13"),
- "C14": ("proptest well-formed OBJ files from random meshes (8 exact number formats, 4 index forms, 4 orderings, layout decorations) compared bit-for-bit; structure-aware mutations + token soup + arbitrary bytes with a semantic oracle; thorough: libFuzzer campaign (cargo-fuzz target obj_parse, same oracle) and an assertions-off build",
+ "C14": ("proptest well-formed OBJ files from random meshes (10 exact number formats incl. 30..80-digit decimals next to f32 rounding midpoints, 4 index forms, 4 orderings, layout decorations) compared bit-for-bit; structure-aware mutations + token soup + arbitrary bytes with a semantic oracle; thorough: libFuzzer campaign (cargo-fuzz target obj_parse, same oracle) and an assertions-off build",
          "Generated-input search: 220k (6M + 5M libFuzzer execs + 5M assertions-off) inputs; parse_obj/read_obj never panic, Ok implies every face index < vertex count and build() succeeds; well-formed files give exactly the written positions and faces.",
          "Trusted: the OBJ writer in c14.rs; CRLF / trailing whitespace / non-ASCII comment bytes are treated as well-formed (recorded as assumptions).",
          "DESIGN.md §4 C14"),
  "C15": ("exhaustive parameter sweeps of every solid generator (sectors/segments from the minimum to 24 (96), radii, capped/uncapped) + proptest boxes and raw lathes, f64 mesh validity predicates (indices, unit normals, winding, watertightness after merging, Euler characteristic, on-surface)",
          "Generated-input search: 88k (1.4M) meshes, every one checked by the full predicate set in f64, independent of the generators' index arithmetic.",
-         "Trusted: predicates in c15.rs; 'outside' = the side (b-a)x(c-a) points to (the crate's culling convention); merge tolerance min(1e-4*scale, 0.2*shortest ideal edge).",
+         "Trusted: predicates in c15.rs; 'outside' = the side (b-a)x(c-a) points to (the crate's culling convention); merge tolerance min(1e-4*scale, 0.2*shortest ideal edge). Sub-check wide-range: sectors up to 1100 and radii over 18 decades (6 for fixed-height solids). Runs again in the libm twin build.",
          "DESIGN.md §4 C15"),
  "C16": ("exhaustive sweeps of all 2^24 8-bit RGB and all 2^24 8-bit HSL colours, float lattices incl. every sextant boundary +- ulps, proptest float colours, all single-byte and strided (thorough: all 2^32) packed words; independent f64 textbook HSL<->RGB reference",
          "Generated-input search: 52.7M (4.4G) cases per run; round trips, range, gray, hue-1==hue-0, no panic (debug assertions live), packing byte orders, clamp-then-truncate, saturating add.",
-         "Trusted: f64 reference conversions in c16.rs (written in a different algebraic form from the library's).",
+         "Trusted: f64 reference conversions in c16.rs (written in a different algebraic form from the library's). Runs again in harnesses built against the libm and mm configurations (twin builds).",
          "DESIGN.md §4 C16"),
  "C17": ("proptest Bezier/spline evaluation vs the f64 Bernstein form for six control-point types, exhaustive join lattice (type x segments x join x ulp offset), and approximate() validated by reconstructing the recursion tree from a recording halt closure with an independent bisection interpreter",
          "Generated-input search: 619k (38M) cases; exact end values, bounding box, tangent = derivative, spline = segment cubic and continuity at joins +-3 ulp, approximate: strictly increasing dyadic parameters, every piece met the criterion or sits at the depth bound, terminates.",
-         "Trusted: f64 Bernstein reference and the bisection interpreter in c17.rs; >= 10x measured margins.",
+         "Trusted: f64 Bernstein reference and the bisection interpreter in c17.rs; >= 10x measured margins. Sub-check ends-extreme: exact-end clauses for control points up to f32::MAX / +-inf. Twin builds: libm, mm.",
          "DESIGN.md §4 C17"),
  "C18": ("proptest + lattices of angles/intervals/vectors vs f64 reference: unit conversions, wrap range and congruence, operators bit-equal to f32 on radians, polar/spherical round trips, sin_cos",
          "Generated-input search over 2.5M (96M) cases with >= 10x measured margins; wrap results must lie in [lo, hi] and be congruent modulo the interval length (tolerance scales with (|a|+|lo|+|hi|)/width).",
-         "Trusted: f64 reference in c18.rs; poles / r = 0 / unresolvable congruence excluded and counted.",
+         "Trusted: f64 reference in c18.rs; poles / r = 0 / unresolvable congruence excluded and counted. Conversions asserted up to f32::MAX wherever the converted value is representable; a result equal to hi must be within rounding of it. Twin build: libm.",
          "DESIGN.md §4 C18"),
  "C19": ("exact GF(2) order certificate of the step matrix read off next_bits (T^(2^64-1)=I, T^((2^64-1)/p)!=I for all 7 prime factors) + linearity on generated pairs + independent inverse step; ALL 2^23 mantissas x 96 (2048) float ranges enumerated via states constructed with the inverse step; proptest for i32 ranges, shapes, composite distributions",
          "Generated-input search and exhaustive enumeration: 9.4e8 (1.8e10) evaluations; period claim decided algebraically on observations of the real step function; distributions in range for every mantissa of every listed range.",
-         "Trusted: bit-matrix arithmetic and inverse step in c19.rs; linearity is sampled (a failure switches to a counterexample search, never alarms by itself).",
+         "Trusted: bit-matrix arithmetic and inverse step in c19.rs; linearity is sampled (a failure switches to a counterexample search, never alarms by itself). Edge probabilities / fixed ranges also on ~600 output words structured in all 64 bits. Twin build: libm.",
          "DESIGN.md §4 C19"),
  "C20": ("one probe binary per feature configuration {none, libm, mm, std} (thorough: also without debug assertions): dense/exhaustive sweeps of every float helper against std f64 references with fixed per-backend bounds, plus per-configuration consequence checks (C04 half-pixel lattice with exact oracle, sampler addressing, wrap, normalize) and a cross-configuration coverage-hash comparison",
-         "Generated-input search: 1.6e8 (1.8e10: all 2^32 bit patterns for floor/abs in all four builds) evaluations; floor/abs exact for |x| < 2^31, rem_euclid in range and congruent, approximate functions within the committed bound table.",
+         "Generated-input search: 1.6e8 (1.8e10: all 2^32 bit patterns for floor/abs in all four builds) evaluations; floor/abs exact for |x| < 2^31, rem_euclid in range and congruent, approximate functions within the committed bound table; sqrt/recip_sqrt over every 4099th (251st) positive bit pattern (subnormals included for libm/std), sin/cos/tan and Angle::sin_cos up to 1e30 (mm: 1e3).",
          "Trusted: std f64 functions as reference; the bound table in harness/fpprobe/src/main.rs; atan2 compared modulo a turn. Open finding F19 (micromath powf) is listed in known_findings.json.",
          "DESIGN.md §4 C20"),
 }
@@ -126,7 +126,7 @@ def main():
         ],
         "checks": checks,
         "not_applicable": na,
-        "notes": "All commands run from /verif. ./check rebuilds the harness against /repo's working tree (path dependencies). exit 0 = held, 1 = VIOLATION line, 2 = inconclusive (build failure, hang, harness error). Fixed defects are listed in known_findings.json.",
+        "notes": "Twin builds: for every property whose check compiles there, the quick-sized check runs again in a harness built against retrofire-core --no-default-features --features libm (C01-C09, C11, C12, C15-C19) and --features mm (C01-C07, C11, C12, C16, C17), as sub-checks twin-build-libm / twin-build-mm of the same command. All commands run from /verif. ./check rebuilds the harness against /repo's working tree (path dependencies). exit 0 = held, 1 = VIOLATION line, 2 = inconclusive (build failure, hang, harness error). Fixed defects are listed in known_findings.json.",
     }
     json.dump(m, open(os.path.join(ROOT, "MANIFEST.json"), "w"), indent=1)
     print("wrote MANIFEST.json with", len(checks), "checks,", len(na), "not_applicable")
